@@ -74,7 +74,11 @@ func (in *Interp) mapKey(k Value) interface{} {
 	switch k := k.(type) {
 	case *term.Term:
 		if !k.IsConst() {
-			in.unsupported("symbolic map key")
+			if k.Sort.K != term.KInt {
+				in.unsupported("symbolic non-integer map key")
+			}
+			// case split over the feasible key values
+			return constKey{term.IntC(k.Sort, in.concInt(k))}
 		}
 		return constKey{k}
 	case string:
